@@ -117,9 +117,30 @@ func genC11Val(t *rapid.T) c811Val {
 		return c811N()
 	case 16:
 		return c811S(rapid.StringN(0, 6, 24).Draw(t, "anystr"))
+	case 17:
+		// numbers whose neighbours differ only beyond float32 / float64 precision or range
+		if rapid.Bool().Draw(t, "precint") {
+			return c811I(rapid.SampledFrom(c11PrecisionInts).Draw(t, "pint"))
+		}
+		return c811F(rapid.SampledFrom(c11PrecisionFloats).Draw(t, "pfloat"))
 	default:
 		return c811I(int64(rapid.IntRange(0, 9).Draw(t, "digit")))
 	}
+}
+
+// values around 2^24 (float32 integer precision), 2^53 (float64 integer precision), close decimal
+// fractions, and magnitudes beyond the float32 range: distinct float64 values every one of them
+var c11PrecisionFloats = []float64{
+	16777216, 16777217, 16777218, 9007199254740992, 9007199254740994,
+	0.1234567891, 0.12345679, 0.123456789, 1234567.891, 1234567.9, 1234567.89,
+	1e300, 1e200, 3.5e38, 3.6e38, 1e-300, 1e-200, 1.0000001, 1.00000001,
+}
+var c11PrecisionInts = []int64{16777216, 16777217, 9007199254740992, 9007199254740993, 1 << 62, 1<<62 + 1}
+
+// c11NeighbourPairs: two different float64 values that a lossy rendering would merge
+var c11NeighbourPairs = [][2]float64{
+	{16777216, 16777217}, {0.1234567891, 0.12345679}, {1234567.891, 1234567.9}, {1e300, 1e200}, {3.5e38, 3.6e38},
+	{9007199254740992, 9007199254740994}, {1.0000001, 1.00000001}, {1e-300, 1e-200}, {0.1, math.Nextafter(0.1, 1)}, {2.5, math.Nextafter(2.5, 3)},
 }
 
 func genC11Span(t *rapid.T) c811Span {
@@ -181,6 +202,17 @@ func genC11(t *rapid.T) c11Case {
 			c.A.Spans[i][f] = c811S("ab")
 			c.B.Spans[i][f] = c811S("a")
 			c.B.Spans = append(c.B.Spans, c811Span{f: c811S("b")})
+		}
+		if nr, _ := c11SplitFields(c.Fields); len(nr) > 0 && rapid.IntRange(0, 5).Draw(t, "neighbour") == 5 {
+			// aimed at the rendering of numbers: A and B differ in one float64 value and its close neighbour
+			i := rapid.IntRange(0, len(c.A.Spans)-1).Draw(t, "nbspan")
+			f := rapid.SampledFrom(nr).Draw(t, "nbfield")
+			pair := rapid.SampledFrom(c11NeighbourPairs).Draw(t, "nbpair")
+			if rapid.Bool().Draw(t, "nbswap") {
+				pair[0], pair[1] = pair[1], pair[0]
+			}
+			c.A.Spans[i][f] = c811F(pair[0])
+			c.B.Spans[i][f] = c811F(pair[1])
 		}
 		ne := rapid.IntRange(0, 3).Draw(t, "nedits")
 		for e := 0; e < ne; e++ {
